@@ -6,6 +6,7 @@ c R-KEYS    emitted GVF round trip (shared with C13.a); GVF start anchored at th
 d           intron tolerance tests are strand-mirrored (sign of the offsets)
 """
 import ast
+import re
 from sa.model import unparse, norm_stmt, call_name, kwarg, walk_no_nested, AnalysisError
 from sa.cfg import CFG, iteration_paths
 from sa import guards as G
@@ -194,3 +195,31 @@ def run(chk, repo):
     from rules.shared import kwname
     chk.clauses.append('C17.kw (shared R-THREAD) parameters handed on as keyword arguments keep their name: no `a=b` between two parameters of one function')
     kwname(chk, repo, 'C17.kw', ['parser.CIRCexplorerParser', 'cli.parse_circexplorer'], floor=0)
+    # ------------------------------------------------------------------ h: circular sequence = fragments in order, each exactly its interval
+    from sa import sem as _s17
+    chk.rule('C17.h', 'R-AFFINE-SLICE: the circRNA sequence is the concatenation, in sorted fragment order, of gene[fragment.start:fragment.end]', 2)
+    chk.clauses.append('C17.h get_circ_rna_sequence concatenates, in sorted fragment order, exactly the gene-sequence slice [start, end) of each fragment')
+    gq = repo.func('circ.CircRNA:CircRNAModel.get_circ_rna_sequence')
+    chk.uses(gq)
+    ngq = _s17.nf(repo, gq)
+    ch17 = _s17.block_chains(ngq)
+    lps = [l for l in ast.walk(ngq) if isinstance(l, ast.For) and isinstance(l.target, ast.Name) and 'fragments' in unparse(l.iter)]
+    ok17 = len(lps) == 1 and unparse(lps[0].iter) == 'sorted(self.fragments)'
+    chk.ob('C17.h', 'fragments are visited in sorted order', gq.where, ok17, f"fragment loop iterates {[unparse(l.iter) for l in lps]}", key=gq.qual + '::order', fn=gq.qual)
+    ok17 = False
+    got17 = []
+    if len(lps) == 1:
+        Fv = lps[0].target.id
+        param = [p_ for p_ in gq.params() if p_ != 'self'][0]
+        for n in ast.walk(lps[0]):
+            if isinstance(n, ast.Subscript) and isinstance(n.slice, ast.Slice) and unparse(n.value) == param:
+                lo = re.sub(r'^int\((.*)\)$', r'\1', unparse(n.slice.lower)) if n.slice.lower is not None else None
+                hi = re.sub(r'^int\((.*)\)$', r'\1', unparse(n.slice.upper)) if n.slice.upper is not None else None
+                got17.append((lo, hi))
+        ok17 = bool(got17) and all(g_ == (f'{Fv}.location.start', f'{Fv}.location.end') for g_ in got17)
+        # concatenation appends on the right: `circ + new` (never `new + circ`)
+        for n in ast.walk(lps[0]):
+            if isinstance(n, ast.BinOp) and isinstance(n.op, ast.Add) and isinstance(n.right, ast.Name) and unparse(n.right) == 'circ':
+                ok17 = False
+    chk.ob('C17.h', 'each fragment contributes gene[start:end] appended on the right', gq.where, ok17,
+           f"slices taken: {got17} (expected (fragment.location.start, fragment.location.end)) / concatenation order altered", key=gq.qual + '::slice', fn=gq.qual)
